@@ -129,7 +129,7 @@ Section Walk.
 
   Theorem ps_walk_ok : forall f items st popped F,
     ps_inv f st items popped -> (f < F)%nat ->
-    ps_walk F img' ptr isz st = POk (ps_gwalk f dt t DB FB items st).
+    ps_walk F (ms_img_read img') ptr isz st = POk (ps_gwalk f dt t DB FB items st).
   Proof.
     induction f as [|f IH]; intros items st popped F Inv HF.
     - destruct items as [|[p n] q].
